@@ -190,8 +190,8 @@ PtCreate(ps, nm, fl, uid) ==
             LET l == DoLookup(S, itab, nexti, pino, nm.s, nm.k, NSlot) IN
             IF ~l.ok THEN Keep(q, Res(l.st, NoRet))
             ELSE LET o == OpenInode(l.T, l.itab, l.ino, c, fl, HKey(HSlot)) IN
-                 IF ~o.ok THEN \* the reference taken by the lookup stays with the server (nothing is returned to the client)
-                      Fin(q, Res(ErrOf(o), NoRet), Close(l.T, NSlot), l.itab, htab, l.nexti, nexth, TRUE, wantH, 0, 0)
+                 IF ~o.ok THEN \* nothing is returned to the client: the reference taken by the lookup is given back (forget_one)
+                      Fin(q, Res(ErrOf(o), NoRet), Close(l.T, NSlot), itab, htab, l.nexti, nexth, TRUE, wantH, 0, 0)
                  ELSE LET T3 == IF wantH THEN o.S ELSE Close(o.S, HKey(HSlot)) IN
                       \* the entry (attributes) was built by do_lookup BEFORE open_inode: stale after a truncating open
                       Fin(q, Res("OK", Attr(l.T, l.id)), T3, l.itab, IF wantH THEN (nexth :> [ino |-> l.ino, flags |-> fl]) @@ htab ELSE htab,
